@@ -489,16 +489,23 @@ class Weaver:
                 if op not in (">=", "<=", "==", "!=", ">", "<"):
                     continue
                 k += 1
-                if [t.text for t in toks[k:k + 3]] != ["size_of", "::", "<"]:
-                    continue
-                g2 = _angle_close(toks, k + 2)
-                if g2 != k + 4 or [t.text for t in toks[g2 + 1:g2 + 3]] != ["(", ")"] or toks[g2 + 3].text != "{":
-                    continue
                 ta = subst.get(toks[h + 4].text, toks[h + 4].text)
-                tb = subst.get(toks[k + 3].text, toks[k + 3].text)
-                if ta not in INT_BITS or tb not in INT_BITS:
+                if ta not in INT_BITS:
                     continue
-                a_, b_ = INT_BITS[ta], INT_BITS[tb]
+                if re.match(r"^\d+$", toks[k].text) and toks[k + 1].text == "{":
+                    # `size_of::<A>() OP <integer literal> {`
+                    a_, b_ = INT_BITS[ta] // 8, int(toks[k].text)
+                    g2 = k - 2
+                else:
+                    if [t.text for t in toks[k:k + 3]] != ["size_of", "::", "<"]:
+                        continue
+                    g2 = _angle_close(toks, k + 2)
+                    if g2 != k + 4 or [t.text for t in toks[g2 + 1:g2 + 3]] != ["(", ")"] or toks[g2 + 3].text != "{":
+                        continue
+                    tb = subst.get(toks[k + 3].text, toks[k + 3].text)
+                    if tb not in INT_BITS:
+                        continue
+                    a_, b_ = INT_BITS[ta], INT_BITS[tb]
                 val = {">=": a_ >= b_, "<=": a_ <= b_, "==": a_ == b_, "!=": a_ != b_, ">": a_ > b_, "<": a_ < b_}[op]
                 then_o = g2 + 3
                 then_c = pairs[then_o]
@@ -512,6 +519,42 @@ class Weaver:
                 else:
                     replace[h] = (else_o - 1, "", "src", None)             # drop `if COND { .. } else`
                 fired("R25:const-branch")
+
+        # R26 `for (i, b) in E.iter().enumerate()[.rev()]` / `E.iter().rev().enumerate()` -> an index loop over `0..E.len()`
+        # (Verus has no Enumerate/Rev<Enumerate> adapters). std's meaning of these adapters on a slice iterator (T3):
+        #   enumerate():        i = 0, 1, .., n-1        b = &E[i]
+        #   enumerate().rev():  i = n-1, .., 1, 0        b = &E[i]
+        #   rev().enumerate():  i = 0, 1, .., n-1        b = &E[n-1-i]
+        # E is evaluated once, before the loop, as in the original (`let verif_enK = E;`).
+        if getattr(unit, "enum_loops", False):
+            dead = [(a, v[0]) for a, v in replace.items() if v[1] == ""]
+            shapes = [("enum_rev", [".", "iter", "(", ")", ".", "enumerate", "(", ")", ".", "rev", "(", ")"]),
+                      ("rev_enum", [".", "iter", "(", ")", ".", "rev", "(", ")", ".", "enumerate", "(", ")"]),
+                      ("enum", [".", "iter", "(", ")", ".", "enumerate", "(", ")"])]
+            for ordn, (kw, hb, hc) in enumerate(loops, 1):
+                if toks[kw].text != "for" or toks[kw + 1].text != "(" or any(a <= kw <= e for a, e in dead):
+                    continue
+                pc = pairs[kw + 1]
+                if pc != kw + 5 or toks[kw + 3].text != "," or toks[pc + 1].text != "in":
+                    continue
+                ivar, bvar, kin = toks[kw + 2].text, toks[kw + 4].text, pc + 1
+                tail = [t.text for t in toks[kin + 1:hb]]
+                shape = None
+                for nm, suf in shapes:
+                    if len(tail) > len(suf) and tail[-len(suf):] == suf:
+                        shape, nsuf = nm, len(suf)
+                        break
+                if shape is None:
+                    continue
+                etext = "".join(sg.text for sg in self._render_range(kin + 1, hb - 1 - nsuf, subst, fired, unit, ctx, {}, {}, replace)).strip()
+                name = "verif_en%d" % ordn
+                replace[kw + 1] = (pc, ivar, "src", None)
+                rng = "0..%s.len()" % name
+                replace[kin + 1] = (hb - 1, ("(%s).rev() " % rng) if shape == "enum_rev" else rng + " ", "src", None)
+                add_before(kw, "let %s = %s;" % (name, etext), "R26")
+                elem = "%s[%s]" % (name, ivar) if shape != "rev_enum" else "%s[%s.len() - 1 - %s]" % (name, name, ivar)
+                ins_after.setdefault(hb, []).insert(0, ("\nlet %s = &%s;" % (bvar, elem), "R26"))
+                fired("R26:enumerate-loop")
 
         # R3 size_of
         for h in _find_seq(toks, bo, bc, ["size_of", "::", "<"]):
